@@ -713,3 +713,11 @@ def c02_i(ctx):
                           'generator'.format(f.name), fn=f, node=c)
     if n < 2:
         ctx.undecided('expected at least two library-internal contexts, found {}'.format(n))
+
+
+
+@obligation('C02-j', 'T6 T11', 'seed 0 is a seed: it is never tested by truth value', floor=1,
+            necessary='`seed or <default>` replaces seed 0 by a random or global seed: the run is no longer a function of the seed')
+def c02_j(ctx):
+    from .base import zero_is_valid_obligation
+    zero_is_valid_obligation(ctx, ['seed'])
